@@ -580,7 +580,7 @@ class WebSocket:
     def _recv(self, bufsize):
         try:
             return recv(self.sock, bufsize)
-        except WebSocketConnectionClosedException:
+        except (WebSocketConnectionClosedException, ConnectionError):
             if self.sock:
                 self.sock.close()
             self.sock = None
